@@ -119,6 +119,8 @@ def replay_history(case):
                 m2 = Images()
                 m2.loads(doc_text(norm_cells(ev["doc"]), ev["ver"], k, s))
                 m = m2
+            elif ev["op"] == "loadinto":
+                m.loads(doc_text(norm_cells(ev["doc"]), ev["ver"], k, s))
         except ValueError:
             out = "ValueError"
         except Exception as exc:
@@ -128,6 +130,8 @@ def replay_history(case):
             fails.append("step %d %s: model outcome %s, code outcome %s (hist=%s, k=%d)"
                          % (step, ev["op"], ev["out"], out, _short(case["hist"]), k))
             return fails
+        if out != "ok" and ev["op"] == "loadinto":
+            return fails          # a refused merge leaves the object half-merged: nothing more to compare
         if out != "ok" and (before != after or hdr_before != m.header.version):
             fails.append("step %d: refused %s changed the manifest: %s -> %s" % (step, ev["op"], before, after))
             return fails
@@ -151,7 +155,20 @@ def replay_history(case):
         a = key.split("/")[1]
         if a in ("src", "nosrc") or a not in productmd.common.RPM_ARCHES:
             fails.append("source/unknown arch key %s in manifest (hist=%s)" % (key, _short(case["hist"])))
-    if case.get("focus") == "C10" and got:
+    if case.get("focus") == "C05" and got:
+        from productmd.images import Images as _I
+        try:
+            text = m.dumps()
+            again = _I()
+            again.loads(text)
+            if again.dumps() != text:
+                fails.append("second write after the upgrade is not byte-identical (hist=%s)" % _short(case["hist"]))
+            if project(again) != got:
+                fails.append("re-loaded upgraded manifest differs: %s vs %s (hist=%s)" % (project(again), got, _short(case["hist"])))
+        except Exception as exc:
+            if not (case["hist"][0].get("ver") == 100 and "UNIQUE_IMAGE_ATTRIBUTES" in str(exc)):     # F-05b territory (1.0 exemption)
+                fails.append("upgraded manifest cannot be written and re-read: %s: %s (hist=%s)" % (type(exc).__name__, exc, _short(case["hist"])))
+    if case.get("focus") in ("C10", "C05") and got:
         try:
             doc = json.loads(m.dumps())
             for v in doc["payload"]["images"]:
@@ -170,8 +187,8 @@ def _short(hist):
             out.append("add(%s,%s,%s)" % (e["v"], e["a"], e["img"]))
         elif e["op"] == "setversion":
             out.append("ver=%s" % e["ver"])
-        elif e["op"] == "load":
-            out.append("load(%s,%s)" % (e["ver"], json.dumps(e["doc"], sort_keys=True)))
+        elif e["op"] in ("load", "loadinto"):
+            out.append("%s(%s,%s)" % (e["op"], e["ver"], json.dumps(e["doc"], sort_keys=True)))
         else:
             out.append(e["op"])
     return ";".join(out)
